@@ -21,6 +21,7 @@ Non-interference argument in four structural legs:
  Re for-each      : loops that act on every item are never left early (break / return).
  Ra alias mutation: a local that still names a list of another object (not copied) is never mutated in place.
  R8 same request  : compare_reqs compares the same attribute of both requests (shared with C19-R8).
+ Rn arg roles     : a variable named like a parameter of the callee is handed to that parameter (no exchanged roles).
 """
 import ast
 
@@ -371,6 +372,15 @@ def r8_same_request(ctx):
     ctx.need('R8.same-request', 15)
 
 
+def rn_arg_roles(ctx):
+    """Rn: a variable named like a parameter of the callee is handed to that parameter (no exchanged roles such as
+    f(to_degree, from_degree) for def f(from_degree, to_degree)); calls to resolved package functions, canonical form"""
+    from .common import arg_roles_rule
+    from ..memo import scope_funcs
+    n = arg_roles_rule(ctx, 'Rn.arg-roles', scope_funcs(ctx.repo, 'C16'), 'requests / paths would be exchanged')
+    ctx.check('Rn.arg-roles', 'argument / parameter name scan', True, 'C16|arg-roles-scan', '', f'{n} argument(s) named like another parameter judged')
+
+
 from ..memo import rule_for as _memo_rule
 
 RULES_MEMO = ('Rm.memo', _memo_rule('C16', 'requests would share a result'))
@@ -380,4 +390,4 @@ from ..presence import rule_for as _presence_rule
 
 RULES_PRESENCE = ('Rp.presence', _presence_rule('C16', 'a legal zero would be read as missing'))
 
-RULES = [('R5.memo', r5_memo), ('R1.isolation', r1_isolation), ('R2.no-leak', r2_no_leak), ('R3.redesign', r3_redesign), ('R4.shared', r4_shared), RULES_MEMO, RULES_PRESENCE, ('R6.carried', r6_carried), ('R7.defaults', r7_defaults), ('Re.for-each', re_foreach), ('Ra.alias-mutation', ra_alias), ('R8.same-request', r8_same_request)]
+RULES = [('R5.memo', r5_memo), ('R1.isolation', r1_isolation), ('R2.no-leak', r2_no_leak), ('R3.redesign', r3_redesign), ('R4.shared', r4_shared), RULES_MEMO, RULES_PRESENCE, ('R6.carried', r6_carried), ('R7.defaults', r7_defaults), ('Re.for-each', re_foreach), ('Ra.alias-mutation', ra_alias), ('R8.same-request', r8_same_request), ('Rn.arg-roles', rn_arg_roles)]
